@@ -331,7 +331,7 @@ def metropolis_scenarios(ctx, rnd):
                         out.append(dict(kernel="metropolis", tg=tg, d=d, x0=valid_start(rnd, tg, d, True), sigma=sigma, n=n, warmup=w,
                                         seed=base + k % 7))
     n_small = len(out)
-    n_rand = 250 if ctx.quick else 4000
+    n_rand = 250 if ctx.quick else 8000
     for _ in range(n_rand):
         tg = dict(rnd.choice(TARGETS), ret=rnd.choice(RETS))
         d = rnd.choice([1, 1, 2, 3])
@@ -361,7 +361,7 @@ def nuts_scenarios(ctx, rnd):
                 out.append(dict(kernel="nuts", tg=tg, d=d, x0=valid_start(rnd, tg, d, True), n=4 + k % 5, n_adapt=None if k % 2 else 0,
                                 stepsize=[0.25, 0.5, 1.0][k % 3] if (zero_grad or k % 4 == 0) else None, max_depth=md, seed=base + k % 11))
     n_small = len(out)
-    n_rand = 60 if ctx.quick else 1200
+    n_rand = 60 if ctx.quick else 2500
     for _ in range(n_rand):
         tg0 = rnd.choice(NUTS_TARGETS)
         tg = dict(tg0, ret=rnd.choice(RETS[:3]))
